@@ -13,6 +13,41 @@ from . import env
 from .core import HarnessError
 
 
+class SimTransport(StringTransport):
+  """StringTransport that (a) notes writes issued after loseConnection() - a TLS transport drops them, and the
+  order "transmit, then close" is what an orderly stop promises - and (b) can push back like a TCP transport:
+  once more than `pause_threshold` bytes were written since the last drain it pauses its streaming producer
+  from inside write()."""
+  pause_threshold = None
+
+  def __init__(self, *a, **kw):
+    StringTransport.__init__(self, *a, **kw)
+    self.late_writes = []
+    self.unflushed = 0
+    self.pushed_back = 0
+
+  def write(self, data):
+    if self.disconnecting:
+      self.late_writes.append(bytes(data))
+    StringTransport.write(self, data)
+    if self.pause_threshold is not None and self.producer is not None and self.streaming:
+      self.unflushed += len(data)
+      if self.unflushed > self.pause_threshold and not getattr(self.producer, 'paused', False):
+        self.pushed_back += 1
+        self.producer.pauseProducing()
+
+  def writeSequence(self, data):
+    self.write(b''.join(data))
+
+  def drain(self):
+    """the peer has read everything: the producer may go on"""
+    self.unflushed = 0
+    if self.producer is not None and getattr(self.producer, 'paused', False):
+      self.producer.resumeProducing()
+      return True
+    return False
+
+
 class SimConnector(object):
   def __init__(self, reactor, host, port, factory):
     self.reactor = reactor
@@ -57,7 +92,8 @@ class SimConnector(object):
       return False
     self.state = 'connected'
     self.protocol = self.factory.buildProtocol(self.getDestination())
-    self.transport = StringTransport(peerAddress=self.getDestination())
+    self.transport = SimTransport(peerAddress=self.getDestination())
+    self.transport.pause_threshold = self.reactor.pause_threshold
     self.transport.sim_connector = self
     self.protocol.makeConnection(self.transport)
     return True
@@ -82,6 +118,8 @@ class SimConnector(object):
 
 class SimReactor(Clock):
   running = True
+
+  pause_threshold = None
 
   def __init__(self):
     Clock.__init__(self)
